@@ -6,6 +6,11 @@
 //   kind: 0 SLEEP(size/1024 s)  1 PUT 2 PUT_ASYNC 3 PUT_DETACHED 4 GET 5 GET_ASYNC 6 WAIT_ALL 7 SET_RECEIVER(obj=mb, size=actor idx | -1)
 //         8 WAIT_OLDEST  9 IPROBE(obj=mb; probe for a SEND matching (tag,fk,fv))
 //         11 MQ_PUT 12 MQ_PUT_ASYNC 13 MQ_PUT_DETACHED 14 MQ_GET 15 MQ_GET_ASYNC
+//         16 MQ_CANCEL(size=k: Mess::cancel() on the k-th (mod n) message-queue handle this actor has not waited yet; logged with
+//            obj = its queue, size = its seq)   17 EXIT (the actor returns now,
+//            without waiting its handles)   18 KILL(size = actor idx; obj = -1)
+//         19 MQ_GET_SLOT: blocking get whose destination is the actor's one reusable variable (as `T* data; q->get_async(&data)->wait()`
+//            in a loop); the variable is looked at again before every later op of the actor and at the end of the simulation
 //   ops with tag == 0 && fk == 0 go through the public S4U API (no match function: label -1, tag 0 as seen by the other
 //   side's filter); the others through CommIsendSimcall/CommIrecvSimcall with a match function, as SMPI does.
 //   filter language (fk,fv): 0 accept all | 1 other.label == fv | 2 other.tag == fv
@@ -15,11 +20,19 @@
 //   M seq payload                            kernel pairing of async receive op seq at the end (payload 0 = unmatched)
 //   P seq                                    put op seq completed (blocking put returned / async put waited)
 //   B seq found                              iprobe seq found a comm carrying payload `found` (0 = nothing)
+//   H seq                                    maestro handles the (first) simcall of message-queue op seq now (SIMGRID_VERIF hook in
+//                                            ActorImpl::simcall_handle): the H lines give the order in which the kernel serves the requests;
+//                                            an EXIT takes effect where its I line stands (the cleanup runs in the actor's own context)
 //   X                                        deadlock reported by the engine        E t   end of simulation at time t*1024
+//   C seq w                                  cancel() of message seq: w = 1 iff the kernel withdrew it from its queue (state CANCELED)
+//   U seq payload                            what the destination variable of message-queue get seq (the latest get using it) holds at the end
+//   S seq payload                            the variable filled by the completed MQ_GET_SLOT seq was later found holding `payload`
+//   Q mq id...                               content of message queue mq at the end, front first (puts: payload id, gets: seq)
 #include "drv.hpp"
 #include <cmath>
 #include <cstring>
 #include <functional>
+#include <map>
 #include <memory>
 #include <sys/wait.h>
 #include <unistd.h>
@@ -38,6 +51,8 @@
 #include "src/kernel/actor/WaitTestObserver.hpp"
 #undef private
 #undef protected
+
+extern void (*simgrid_verif_on_simcall_handle)(long pid); // SIMGRID_VERIF hook in ActorImpl::simcall_handle
 
 namespace sg4 = simgrid::s4u;
 namespace ka  = simgrid::kernel::activity;
@@ -66,6 +81,12 @@ struct Handle {
   sg4::MessPtr m;
   void* buf = nullptr;
   bool waited = false;
+  long obj    = -1;
+};
+struct Slot {
+  void* cell    = nullptr; // the user variable
+  void* last    = nullptr; // what the last completed get left there
+  long last_seq = 0;
 };
 
 static long g_seq = 0;
@@ -74,6 +95,9 @@ static std::vector<std::shared_ptr<Handle>> g_recv_handles;
 static std::vector<sg4::Mailbox*> g_mb;
 static std::vector<sg4::MessageQueue*> g_mq;
 static std::vector<sg4::ActorPtr> g_actors;
+static std::vector<Slot*> g_slots;
+static std::map<long, long> g_unhandled; // pid -> seq of the message-queue op whose first simcall maestro has not handled yet
+static std::map<const void*, long> g_buf2seq; // destination buffer -> seq of the (latest) get using it
 
 static void logf(const char* fmt, ...)
 {
@@ -147,17 +171,73 @@ static void wait_handle(Handle& h)
     logf("P %ld", h.seq);
 }
 
+static void on_simcall_handle(long pid)
+{
+  auto it = g_unhandled.find(pid);
+  if (it != g_unhandled.end() && it->second != 0) {
+    logf("H %ld", it->second);
+    it->second = 0;
+  }
+}
+
+static void check_slot(Slot* s)
+{
+  if (s->last_seq != 0 && s->cell != s->last) {
+    logf("S %ld %ld", s->last_seq, payload_id(s->cell));
+    s->last = s->cell; // report each change once
+  }
+}
+
 static void actor_code(int me, std::vector<Op> ops)
 {
   std::vector<std::shared_ptr<Handle>> mine;
+  auto* slot = new Slot();
+  g_slots.push_back(slot);
   // storage that must outlive the ops (buffers of async receives, match data): leaked on purpose
   for (auto const& op : ops) {
     bool filtered = op.tag != 0 || op.fk != 0;
     double rate   = op.rate > 0 ? (double)op.rate : -1.0;
     long seq      = 0;
+    check_slot(slot);
+    if (op.kind == 16) { // pick the handle first: nothing is issued (and nothing logged) when there is none
+      std::vector<size_t> cand;
+      for (size_t k = 0; k < mine.size(); k++)
+        if (mine[k]->flavour == 2 && not mine[k]->waited)
+          cand.push_back(k);
+      if (cand.empty())
+        continue;
+      size_t k    = cand[(size_t)op.size % cand.size()];
+      auto h      = mine[k];
+      seq         = ++g_seq;
+      logf("I %ld %d 16 %ld %ld 0 0 0", seq, me, h->obj, h->seq);
+      g_unhandled[sg4::this_actor::get_pid()] = seq;
+      h->m->cancel();
+      // MessImpl::cancel() marks the message CANCELED only when it was still queued; nothing changes that state later
+      logf("C %ld %d", h->seq, h->m->get_impl() && h->m->get_impl()->get_state() == ka::State::CANCELED ? 1 : 0);
+      h->waited = true;
+      mine.erase(mine.begin() + k);
+      continue;
+    }
+    if (op.kind == 17) {
+      seq = ++g_seq;
+      logf("I %ld %d 17 -1 0 0 0 0", seq, me);
+      return;
+    }
+    if (op.kind == 18) {
+      long victim = op.size % (long)g_actors.size();
+      if (victim == me)
+        continue;
+      seq = ++g_seq;
+      logf("I %ld %d 18 -1 %ld 0 0 0", seq, me, victim);
+      g_unhandled[sg4::this_actor::get_pid()] = seq;
+      g_actors.at(victim)->kill();
+      continue;
+    }
     if (op.kind != 0 && op.kind != 6 && op.kind != 8) {
       seq = ++g_seq;
       logf("I %ld %d %ld %ld %ld %ld %ld %ld", seq, me, op.kind, op.obj, op.size, op.tag, op.fk, op.fv);
+      if (op.kind >= 11)
+        g_unhandled[sg4::this_actor::get_pid()] = seq;
     }
     switch (op.kind) {
       case 0:
@@ -293,6 +373,7 @@ static void actor_code(int me, std::vector<Op> ops)
           h->flavour = 2;
           h->recv    = false;
           h->seq     = seq;
+          h->obj     = op.obj;
           h->m       = mq->put_async(p);
           mine.push_back(h);
         } else {
@@ -308,7 +389,9 @@ static void actor_code(int me, std::vector<Op> ops)
         h->flavour = 2;
         h->recv    = true;
         h->seq     = seq;
+        h->obj     = op.obj;
         h->buf     = buf;
+        g_buf2seq[buf] = seq;
         h->m       = mq->get_async<void>(buf);
         g_recv_handles.push_back(h);
         if (op.kind == 14)
@@ -317,12 +400,33 @@ static void actor_code(int me, std::vector<Op> ops)
           mine.push_back(h);
         break;
       }
+      case 19: {
+        auto* mq             = g_mq.at(op.obj);
+        slot->cell           = nullptr;
+        slot->last_seq       = 0;
+        g_buf2seq[&slot->cell] = seq;
+        auto h     = std::make_shared<Handle>(); // kept so that the kernel pairing is reported even if this actor is killed
+        h->flavour = 2;
+        h->recv    = true;
+        h->seq     = seq;
+        h->obj     = op.obj;
+        h->buf     = &slot->cell;
+        h->waited  = true;
+        h->m       = mq->get_async<void>(&slot->cell);
+        g_recv_handles.push_back(h);
+        h->m->wait();
+        log_delivery(seq, slot->cell, -1);
+        slot->last     = slot->cell;
+        slot->last_seq = seq;
+        break;
+      }
       default:
         break;
     }
   }
   for (auto& h : mine)
     wait_handle(*h);
+  check_slot(slot);
 }
 
 static void dump_pairings()
@@ -341,8 +445,31 @@ static void dump_pairings()
   }
 }
 
+static void dump_queues()
+{
+  for (size_t q = 0; q < g_mq.size(); q++) {
+    std::string l = "Q " + std::to_string(q);
+    for (auto const& m : g_mq[q]->get_impl()->queue_) {
+      long id = 0;
+      if (m->get_type() == ka::MessImplType::PUT)
+        id = payload_id(m->payload_);
+      else if (auto it = g_buf2seq.find(m->dst_buff_); it != g_buf2seq.end())
+        id = it->second;
+      l += " " + std::to_string(id);
+    }
+    g_log.push_back(l);
+  }
+}
+
 static void finish_and_exit()
 {
+  for (auto* s : g_slots)
+    check_slot(s);
+  dump_queues();
+  // what the destination variable of every message-queue get holds now (the kernel fills it when the pair is formed, even if the
+  // receiver is killed before it can report)
+  for (auto const& [buf, seq] : g_buf2seq)
+    logf("U %ld %ld", seq, payload_id(*static_cast<void* const*>(buf)));
   dump_pairings();
   logf("E %ld", (long)std::llround(sg4::Engine::get_clock() * 1024));
   std::string out;
@@ -393,6 +520,7 @@ static int run_case(const std::vector<long long>& v)
     }
     g_actors.push_back(hosts[a % nhosts]->add_actor("a" + std::to_string(a), [a, ops]() { actor_code((int)a, ops); }));
   }
+  simgrid_verif_on_simcall_handle = on_simcall_handle;
   sg4::Engine::on_deadlock_cb([]() {
     // everything observable is known here; leaving now avoids the kill phase (cancel() of a comm whose mbox_ was
     // cleared by iprobe is a separate matter, outside C08)
